@@ -48,6 +48,12 @@ def gen_idle_script(rng):
         # ... or neither of the two fits even the idle pilot (more ranks than the pilot has cores)
         w1 = _req(1, nn * cpn + rng.randint(1, 3), 1, prio=rng.choice([0, 0, 1]))
         w2 = _req(2, nn * cpn + rng.randint(1, 3), 1, prio=rng.choice([0, 0, 1]))
+    if cpn >= 2 and rng.random() < 0.3:
+        # both waiting tasks fit the idle pilot, in the same priority pool, but not together: when the pilot has become
+        # idle the first is started in the wait pool pass and the second has to go on waiting (it is not failed)
+        nn = 1; nodes = nodes[:1]
+        w1 = _req(1, 1, cpn - 1 if cpn > 2 else cpn)
+        w2 = _req(2, 1, cpn // 2 + 1)
     if nn * cpn >= 2 and rng.random() < 0.5:
         # the pilot is filled by two tasks which complete together (one unschedule message names both)
         first = [_req(0, 1, 1), _req(3, nn * cpn - 1, 1)] if cpn == 1 or nn == 1 else [_req(0, 1, cpn), _req(3, nn - 1, cpn)]
@@ -59,6 +65,22 @@ def gen_idle_script(rng):
     iters.append(E([{'sched': [w2]}], rel))
     iters += [E(), E(), E()]
     return {'cfg': {'cpn': cpn, 'gpn': 0, 'lfs': 0, 'mem': 0, 'scattered': rng.random() < 0.7}, 'nodes': nodes, 'iters': iters}
+
+
+def gen_colo_script(rng):
+    """property-directed (C02, colocate): a continuous (non-scattered) pilot with some nodes full; a tagged task of several
+    ranks is placed - possibly after its walk found ranks on a node, met a full node and started over - and then a second
+    task with the same tag arrives while other nodes have room: it may only go where the first one was placed"""
+    nn, cpn = rng.choice([4, 4, 5, 6]), rng.choice([1, 2, 4])
+    nodes = [{'index': i, 'cores': [0] * cpn, 'gpus': [], 'lfs': 0, 'mem': 0} for i in range(nn)]
+    E = lambda inc=None, un=None: {'incoming': inc or [], 'marks': [], 'envs': [], 'unsched': un or []}
+    fillers = [_req(i, 1, cpn) for i in range(nn)]                       # each fills one node: the pilot is full
+    keep = rng.sample(range(nn), rng.randint(1, nn - 3))                 # ... and these stay, the others complete
+    freed = [[i] for i in range(nn) if i not in keep]
+    a = _req(10, rng.choice([2, 2, 3]), cpn, colo=7)
+    b = _req(11, 1, 1, colo=7)
+    iters = [E([{'sched': fillers}]), E([], freed), E([{'sched': [a]}]), E([{'sched': [b]}]), E(), E([], [[10]]), E(), E()]
+    return {'cfg': {'cpn': cpn, 'gpn': 0, 'lfs': 0, 'mem': 0, 'scattered': False}, 'nodes': nodes, 'iters': iters}
 
 
 APP_WITNESS = {   # F3 (recorded): an application-placed task is not marked busy; the next task gets the same core
@@ -82,6 +104,8 @@ def run(ctx, prop):
         scripts.append(schedlib.fill_releases(rp, sc))
     for i in range(ctx.n(30, 600)):
         scripts.append(gen_idle_script(rng))
+    for i in range(ctx.n(40, 800)):
+        scripts.append(schedlib.keep_valid_releases(rp, gen_colo_script(rng)))
     for i in range(ctx.n(2, 40)):
         # large pilots: more than 512 releases reach the scheduler within one drain of the unschedule queue
         scripts.append(schedlib.fill_releases(rp, schedlib.gen_big_script(rng)))
